@@ -4,6 +4,7 @@ package main
 
 import (
 	"fmt"
+	"os"
 
 	"mvdan.cc/sh/v3/syntax"
 )
@@ -59,6 +60,13 @@ func c02(c *Ctx) {
 		}
 		if _, _, fl := c02Check(tc); fl != nil && fl.Kind != "c01-reparse" {
 			c.Fail(line, fl.String())
+			if f, ok := tc.tree(); ok {
+				if id := c02Excluded(tc, f, shapeOf(f)); id == "" {
+					c.Extra["corpus_witness_outside_exclusions"] = line
+				} else {
+					st.excluded["corpus:"+id]++
+				}
+			}
 		}
 		c.Case("corpus:"+line, true, "corpus")
 	}
@@ -87,6 +95,10 @@ func c02(c *Ctx) {
 			return
 		}
 		c02Report(c, tc, fl, st)
+	}
+	if os.Getenv("VERIF_L4_CORPUS_ONLY") != "" {
+		st.export(c)
+		return
 	}
 	seeds := repoSeeds()
 	nOpt := 2
@@ -187,7 +199,7 @@ func c02Excluded(tc l4Case, f *syntax.File, sh *shape) string {
 	// on the line of the outer `(`, so a blank is written, and then the closing parenthesis on a
 	// later line forces a newline right after it: `( ` NEWLINE.  The second pass sees the inner
 	// command on its own line and prints `(` NEWLINE.
-	if !o.Single && sh.any(func(n syntax.Node) bool {
+	if !o.Single && !o.Minify && sh.any(func(n syntax.Node) bool {
 		s, ok := n.(*syntax.Subshell)
 		if !ok || len(s.Stmts) != 1 || !startsWithLparenH(s.Stmts[0]) || s.Lparen.Line() != s.Stmts[0].Pos().Line() {
 			return false
